@@ -49,8 +49,13 @@ isfinal:加载是否结束
 class iobuffer
 {
 public:
+#ifdef WENCRY_VERIF_BUF_SZ
+  static const u32_t BUF_SZ = WENCRY_VERIF_BUF_SZ;
+  static const u32_t sum = 16 * WENCRY_VERIF_BUF_SZ;
+#else
   static const u32_t BUF_SZ = 0x100000;
   static const u32_t sum = 0x1000000;
+#endif
 
 private:
   u8_t b[BUF_SZ][0x10];
